@@ -253,7 +253,13 @@ func writeGroupIni(cmd *Command, group *Group, namespace string, writer io.Write
 		}
 
 		if !sectionwritten {
-			fmt.Fprintf(writer, "[%s]\n", sname)
+			// The options of the parser's own group (added with AddOption)
+			// have no section: they are the entries before the first section
+			// header, and this group is written first
+			if len(sname) != 0 {
+				fmt.Fprintf(writer, "[%s]\n", sname)
+			}
+
 			sectionwritten = true
 		}
 
